@@ -196,6 +196,24 @@ def ecmaStep (F : Fns α) (k : EcmaConsts α) (s : Ecma α) (y : Vec α) (zz fp 
       { s' with bestPoint := xo, bestValue := fu, anc := s.anc.drop 1 ++ [fp], x := xo }
   | succ => (updateAsParent F k s succ zz y).map fun s' => { s' with x := s.bestPoint }
 
+/-- `ElitistCMA::init`: the history of accepted fitness values is filled with the (penalized) fitness `fp` of the
+starting point, which is also the parent; the reported value is its unpenalized fitness `fu` -/
+def ecmaInit (sigma pSucc : α) (n : Nat) (L : List (Vec α)) (x0 : Vec α) (fp fu : α) : Ecma α :=
+  { sigma := sigma, pSucc := pSucc, path := Vec.zeros n, L := L, anc := List.replicate 5 fp,
+    bestPoint := x0, bestValue := fu, x := x0 }
+
+/-- what one `ElitistCMA::step` consumes: the sampled step `y = L z`, `‖z‖²`, and the offspring's two fitness values -/
+structure EcmaInput (α : Type) where
+  y : Vec α
+  zz : α
+  fp : α
+  fu : α
+
+/-- a whole run (any number of steps, either setting of `activeUpdate()`); `none` = the C++ throws -/
+def ecmaRun (F : Fns α) (k : EcmaConsts α) (s : Ecma α) : List (EcmaInput α) → Option (Ecma α)
+  | [] => some s
+  | i :: rest => (ecmaStep F k s i.y i.zz i.fp i.fu).bind fun s' => ecmaRun F k s' rest
+
 /-! ## CMSA and the cross-entropy method: update from the selected individuals (best first) -/
 
 structure CmsaInd (α : Type) where
@@ -221,6 +239,20 @@ def cmsaUpdate (F : Fns α) (cC : α) (n mu : Nat) (s : Cmsa α) (sel : List (Cm
     acc.bind fun L => cholUpdate F Scalar.one (Scalar.one / m * Scalar.one / cC) i.step L) L0
   let sigma := sel.foldl (fun acc i => acc + Scalar.one / m * i.sigma) Scalar.zero
   L.map fun L => { sigma := sigma, mean := mean, L := L }
+
+/-- `CrossEntropyMethod::INoiseType` as configured by `setNoiseType` (the constructor installs `ConstantNoise(0.0)`) -/
+inductive CemNoise (α : Type) where
+  | default
+  | const (c : α)
+  | linear (a b : α)
+
+/-- `noiseValue(t)`: `ConstantNoise`: `std::max(c, 0.0)`, `LinearNoise`: `std::max(a + t * b, 0.0)`; `t` is the generation
+counter, already incremented when `updateStrategyParameters` reads it -/
+def cemNoise (nz : CemNoise α) (t : Nat) : α :=
+  match nz with
+  | .default => Scalar.max Scalar.zero Scalar.zero
+  | .const c => Scalar.max c Scalar.zero
+  | .linear a b => Scalar.max (a + ofNat t * b) Scalar.zero
 
 /-- `CrossEntropyMethod::updateStrategyParameters`: centroid and per-coordinate variance (+ noise term) -/
 def cemUpdate (noise : α) (n : Nat) (sel : List (Vec α)) : Vec α × Vec α :=
